@@ -117,7 +117,9 @@ def execute(mat, ctx):
         V, M = gen.generic_classes(amat["enzyme"])
         geom = refmodel.geometry(gen.enzyme(amat["enzyme"]))
         texts = [amat["vector"]["seq"]] + [m["seq"] for m in amat["modules"]]
-        rec = lambda t, i: CircularRecord(Seq(t), "r%d" % i)
+        # the topology annotation in any spelling the library accepts, or none (decided by the text, so that replays agree)
+        topo = lambda t: [None, "circular", "Circular", None, "CIRCULAR"][(len(t) + ord(t[0]) + ord(t[-1])) % 5]
+        rec = lambda t, i: CircularRecord(Seq(t), "r%d" % i, annotations={"topology": topo(t)} if topo(t) else None)
         del _alive[:]
         classes = [M] * (len(texts) - 1)
         if mat["i"] % 2:
@@ -182,7 +184,8 @@ def execute(mat, ctx):
         for alt in alts[: 3 if TIER == "quick" else 40]:
             r = alt["rec"]
             k = rng.randrange(len(r))
-            nrec = CircularRecord(Seq(rot_left(str(r.seq), k)), id=r.id, name=r.name)
+            nrec = CircularRecord(Seq(rot_left(str(r.seq), k)), id=r.id, name=r.name,
+                                  annotations={"topology": ["circular", "Circular", "CIRCULAR"][k % 3]} if k % 2 else None)
             m2 = list(mods)
             m2[pos - 1] = (alt["cls"], nrec)
             new = run(vcls, vrec, m2)
